@@ -1,12 +1,26 @@
 // C03 - geometry navigation matches true point location along every ray and under every
 // documented interleaving of find-next-step / move / cross / set-direction.
 //
-// part "rays" (E4 lattice): geometry zoo x start lattice x direction set; every ray is traced
-//   with the real OrangeTrackView until it leaves the world; each segment, crossing and the
-//   distance-limited search are judged by the independent oracle (oracle/geo_oracle.hh).
+// part "rays" (E4 lattice): geometry zoo (+ hex-array) x {start lattice, one oracle-placed start
+//   inside every distinct volume chain (oracle/geo_samples.hh)} x direction set; every ray is
+//   traced with the real OrangeTrackView until it leaves the world; each segment, crossing, the
+//   position after move_to_boundary (= start + distance x direction, on a surface of some level)
+//   and the distance-limited search are judged by the independent oracle (oracle/geo_oracle.hh).
+//   Plus an initialise-only lattice (15^3 / 25^3): volume chain and per-level positions.
 // part "ops" (E2 explicit-state search over operation histories): depth-bounded DFS over the
 //   real transition functions with state snapshot/restore and sharing of identical states;
-//   invariants I1..I5 (see DESIGN.md C03) evaluated on every transition.
+//   invariants I1..I5 (see DESIGN.md C03) evaluated on every transition, plus
+//     I6 the global position after move_internal / move_to_boundary is start + distance x
+//        direction (the harness keeps its own account of the remaining step), and a point
+//        flagged on-boundary lies within 2 tol of a surface of some level;
+//     I7 re-initialising the used slot (from ANY reached state) reproduces the root state.
+//   Roots: start lattice + one oracle-placed point inside every volume chain (so that surfaces
+//   of nesting level 1 and 2, e.g. of the twice rotated leaf of g4, are two operations away),
+//   visited round-robin over the geometries.  On a surface of a nested level the set_dir
+//   alphabet also contains directions a few degrees off the tangent plane of the oracle's normal.
+//
+// Signatures of the two recorded coincident-surface findings carry the geometry name
+// ("...@<geometry>"): a finding recorded for one input does not swallow the symptom elsewhere.
 //
 // Soundness notes
 //  * the oracle makes no claim within eps_amb = 10 tol of any surface; probes along the ray
@@ -26,6 +40,7 @@
 #include "orange/detail/LevelStateAccessor.hh"
 #include "engine/harness.hh"
 #include "oracle/geo_oracle.hh"
+#include "oracle/geo_samples.hh"
 #include "problems/geo_zoo.hh"
 
 using namespace celeritas;
@@ -142,6 +157,79 @@ static bool check_located(Ctx& c, OrangeTrackView& v, std::string const& cid, ch
     return true;
 }
 
+//! The global position after a move equals the position before + distance * direction.
+//! Tolerance 1e-9 x scale: the move itself is one axpy per level (a few ulp of the coordinates,
+//! ~1e-15 x scale); everything above that is a displaced track.
+static bool check_moved_to(Ctx& c, OrangeTrackView& v, D3 const& want, std::string const& cid,
+                           char const* when)
+{
+    D3 p = r3(v.pos());
+    double err = 0;
+    for (int k = 0; k < 3; ++k)
+        err = std::max(err, std::fabs(p[k] - want[k]));
+    c.R.count("position_checks");
+    if (!(err <= 1e-9 * c.scale))
+    {
+        c.R.violation("nav:position-displaced", cid,
+                      fmt("%s: geometry %s: position %s but start + distance x direction is %s "
+                          "(off by %.3g)",
+                          when, c.env.name.c_str(), d3s(p).c_str(), d3s(want).c_str(), err));
+        return false;
+    }
+    return true;
+}
+
+//! A point flagged "on boundary" lies (within 2 tol, first order) on a surface of at least one
+//! level of the chain it is heading into; no claim when the oracle cannot locate the point ahead.
+static bool check_on_some_surface(Ctx& c, OrangeTrackView& v, std::string const& cid, char const* when)
+{
+    D3 p = r3(v.pos()), d = r3(v.dir());
+    OLocation ahead = c.locate(axpy3(p, c.eps_probe, d));
+    if (ahead.status != OLocation::ok)
+    {
+        c.R.count("skipped_ambiguous");
+        return true;
+    }
+    c.R.count("oracle_on_surface");
+    if (c.env.oracle->levels_touching_surface(p, ahead, 2 * c.tol_len) < 1)
+    {
+        // the chain behind may own the surface (leaving a daughter: the surface belongs to a level
+        // that the chain ahead does not have)
+        OLocation behind = c.locate(axpy3(p, -c.eps_probe, d));
+        if (behind.status != OLocation::ok)
+        {
+            c.R.count("skipped_ambiguous");
+            return true;
+        }
+        if (c.env.oracle->levels_touching_surface(p, behind, 2 * c.tol_len) >= 1)
+            return true;
+        c.R.violation("nav:on-boundary-off-every-surface", cid,
+                      fmt("%s: geometry %s: the track is flagged on a boundary at %s (direction %s) "
+                          "but no surface of any level passes within 2 tol of that point",
+                          when, c.env.name.c_str(), d3s(p).c_str(), d3s(d).c_str()));
+        return false;
+    }
+    return true;
+}
+
+//! An internal move ended within the oracle's ambiguity distance (10 tol) of some surface of some
+//! level - typically EXACTLY on an internal surface of the current volume (midpoint of a symmetric
+//! chord: e.g. nested-rect-arrays "find,tobound,setdir:-1,cross,find,mpos:0.5" ends at y = 0, a
+//! plane of the array box that cuts through the surrounding world volume).  The track is then a
+//! start point "within tolerance of a surface" without surface state, which the property excludes
+//! (the navigator refuses to initialise there; a following search from there may mis-set that
+//! surface's sense).  No claim is made for the futures of such a state: the branch is cut.
+static bool position_on_a_surface(Ctx& c, OrangeTrackView& v)
+{
+    OLocation loc = c.locate(r3(v.pos()));
+    if (loc.status == OLocation::ambiguous)
+    {
+        c.R.count("pruned_move_ended_within_tolerance_of_a_surface");
+        return true;
+    }
+    return false;
+}
+
 //! On a boundary with the crossing decided: the reported volume is the one being entered
 static bool check_heading(Ctx& c, OrangeTrackView& v, std::string const& cid, char const* when)
 {
@@ -194,8 +282,10 @@ static bool check_step(Ctx& c, D3 const& p, D3 const& d, double dist, bool bound
         c.R.count("oracle_segment");
         if (chain_of(loc) != here)
         {
-            c.R.violation(c.coincident_start(p, d) ? "nav:boundary-skipped:start-on-surface-shared-between-levels"
-                                                   : "nav:boundary-skipped",
+            c.R.violation(c.coincident_start(p, d)
+                              ? "nav:boundary-skipped:start-on-surface-shared-between-levels@"
+                                    + c.env.name
+                              : std::string("nav:boundary-skipped"),
                           cid,
                           fmt("%s: geometry %s from %s along %s the navigator reports a free step "
                               "of %.17g in %s, but at distance %.17g the oracle locates %s (%s)",
@@ -216,8 +306,9 @@ static bool check_step(Ctx& c, D3 const& p, D3 const& d, double dist, bool bound
             if (chain_of(a) == chain_of(b))
             {
                 c.R.violation(c.coincident_start(p, d)
-                                  ? "nav:boundary-invented:start-on-surface-shared-between-levels"
-                                  : "nav:boundary-invented",
+                                  ? "nav:boundary-invented:start-on-surface-shared-between-levels@"
+                                        + c.env.name
+                                  : std::string("nav:boundary-invented"),
                               cid,
                               fmt("%s: geometry %s from %s along %s the navigator reports a "
                                   "boundary at %.17g but the oracle finds the same volume %s on "
@@ -317,9 +408,33 @@ static void report_cross_failure(Ctx& c, OrangeTrackView& v, D3 const& dir, std:
                 near = true;
         }
     }
-    std::string sig = (level > 0 && (exactly_on || near))
-                          ? "nav:cross-failed:daughter-init-on-coincident-surface"
-                          : "nav:cross-failed";
+    // ... and only when the failure happened while DESCENDING into a daughter (failing level
+    // deeper than the level of the surface crossed): when the crossed level's own tracker fails,
+    // the point is on the crossed surface by construction and the test above says nothing.
+    // The signature carries the geometry: a known finding recorded for one input must not
+    // swallow the same symptom elsewhere.
+    int surf_level = st.surface_level[TrackSlotId{0}]
+                         ? int(st.surface_level[TrackSlotId{0}].unchecked_get())
+                         : -1;
+    bool descending = surf_level >= 0 && level > surf_level;
+    // Other manifestation of the same configuration: the track LEAVES a daughter through a
+    // surface that the daughter shares with the parent level (coincident copies at two levels); the
+    // daughter's copy wins the distance tie by rounding and the daughter-level tracker finds no
+    // volume behind it (the daughter has no background).  Recognised by: failing level = level of
+    // the crossed surface > 0 and the point lies on surfaces of >= 2 levels of the chain it leaves.
+    bool shared = false;
+    if (level > 0 && !descending)
+    {
+        OLocation bh = c.locate(axpy3(p, -c.eps_probe, dir));
+        shared = bh.status == OLocation::ok
+                 && c.env.oracle->levels_touching_surface(p, bh, 2 * c.tol_len) >= 2;
+    }
+    std::string sig = (level > 0 && descending && (exactly_on || near))
+                          ? "nav:cross-failed:daughter-init-on-coincident-surface@" + c.env.name
+                      : (level > 0 && shared)
+                          ? "nav:cross-failed:daughter-level-crossing-on-surface-shared-between-levels@"
+                                + c.env.name
+                          : std::string("nav:cross-failed");
     c.R.tag("crossfail:" + c.env.name);
     c.R.violation(sig, cid,
                   fmt("geometry %s: cross_boundary failed at %s dir %s (failing level %d, universe "
@@ -327,6 +442,94 @@ static void report_cross_failure(Ctx& c, OrangeTrackView& v, D3 const& dir, std:
                       c.env.name.c_str(), d3s(p).c_str(), d3s(dir).c_str(), level, uid,
                       d3s(r3(lpos)).c_str(), exactly_on ? " = exactly on a surface of it" : "",
                       chain_of(nx).c_str()));
+}
+
+//! Global unit normal of the surface the boundary point p lies on, from the oracle: the surface
+//! (of any level of the chain ahead of / behind the point) nearest to p in first order, its
+//! gradient rotated up through the daughter transforms.  false: no claim (ambiguous / unclean).
+static bool oracle_normal(Ctx& c, D3 const& p, D3 const& d, D3* normal, int* surf_level)
+{
+    for (double sgn : {1.0, -1.0})
+    {
+        OLocation loc = c.locate(axpy3(p, sgn * c.eps_probe, d));
+        if (loc.status != OLocation::ok)
+            continue;
+        vf::LD best = 2 * c.tol_len;
+        bool found = false;
+        vf::P3 pos = {p[0], p[1], p[2]};
+        for (size_t l = 0; l < loc.levels.size(); ++l)
+        {
+            vf::OUniverse const& u = c.env.oracle->universe(loc.levels[l].universe);
+            if (u.is_array)
+            {
+                for (int a = 0; a < 3; ++a)
+                    for (double gv : u.grid[a])
+                        if (std::fabs(pos[a] - gv) < best)
+                        {
+                            best = std::fabs(pos[a] - gv);
+                            vf::P3 nl = {0, 0, 0};
+                            nl[a] = 1;
+                            vf::P3 ng = vf::detail_samples::vec_up(*c.env.oracle, loc, l, nl);
+                            *normal = {double(ng[0]), double(ng[1]), double(ng[2])};
+                            *surf_level = int(l);
+                            found = true;
+                        }
+            }
+            else
+            {
+                for (auto const& sf : u.surfaces)
+                {
+                    vf::LD f, h2;
+                    vf::P3 g;
+                    vf::eval_surface(sf, pos, &f, &g, &h2);
+                    vf::LD gn = std::sqrt(g[0] * g[0] + g[1] * g[1] + g[2] * g[2]);
+                    if (gn > 0 && std::fabs(f) / gn < best)
+                    {
+                        best = std::fabs(f) / gn;
+                        vf::P3 nl = {g[0] / gn, g[1] / gn, g[2] / gn};
+                        vf::P3 ng = vf::detail_samples::vec_up(*c.env.oracle, loc, l, nl);
+                        *normal = {double(ng[0]), double(ng[1]), double(ng[2])};
+                        *surf_level = int(l);
+                        found = true;
+                    }
+                }
+            }
+            // descend
+            vf::ODaughter const* dau = nullptr;
+            int lv = loc.levels[l].local_volume;
+            if (u.is_array)
+                dau = &u.daughters.at(lv);
+            else if (u.volumes[lv].daughter >= 0)
+                dau = &u.daughters[u.volumes[lv].daughter];
+            if (!dau)
+                break;
+            pos = dau->down(pos);
+        }
+        if (found)
+            return true;
+    }
+    return false;
+}
+
+//! Direction at `deg` degrees from the tangent plane of normal n (positive: along +n), in the
+//! tangent direction #ti of four (every 45 degrees of the half circle)
+static D3 near_tangent_dir(D3 const& n, int ti, double deg)
+{
+    int a = 0;
+    for (int k = 1; k < 3; ++k)
+        if (std::fabs(n[k]) < std::fabs(n[a]))
+            a = k;
+    D3 e = {0, 0, 0};
+    e[a] = 1;
+    D3 t0 = unit3({n[1] * e[2] - n[2] * e[1], n[2] * e[0] - n[0] * e[2], n[0] * e[1] - n[1] * e[0]});
+    D3 t1 = {n[1] * t0[2] - n[2] * t0[1], n[2] * t0[0] - n[0] * t0[2], n[0] * t0[1] - n[1] * t0[0]};
+    // a slightly irregular fan (no tangent exactly along a local axis of an axis-aligned box)
+    double phi = (ti * 45.0 + 11.0) * M_PI / 180;
+    D3 t = {std::cos(phi) * t0[0] + std::sin(phi) * t1[0], std::cos(phi) * t0[1] + std::sin(phi) * t1[1],
+            std::cos(phi) * t0[2] + std::sin(phi) * t1[2]};
+    double th = deg * M_PI / 180;
+    return unit3({std::cos(th) * t[0] + std::sin(th) * n[0], std::cos(th) * t[1] + std::sin(th) * n[1],
+                  std::cos(th) * t[2] + std::sin(th) * n[2]});
 }
 
 //---------------------------------------------------------------------------//
@@ -399,6 +602,9 @@ static void trace_ray(Ctx& c, D3 const& p0, D3 const& d0, std::string const& cid
         if (!check_limited(c, v, prop, cid))
             return;
         v.move_to_boundary();
+        if (!check_moved_to(c, v, axpy3(p, prop.distance, d), cid, "after move_to_boundary")
+            || !check_on_some_surface(c, v, cid, "after move_to_boundary"))
+            return;
         v.cross_boundary();
         R.count("transitions", 2);
         R.count("op_to_boundary");
@@ -435,65 +641,135 @@ static void trace_ray(Ctx& c, D3 const& p0, D3 const& d0, std::string const& cid
         R.nontrivial(vf::hash_mix(vf::hash_str(c.env.name), path_hash));
 }
 
+//! chain representatives placed by the oracle (no near-face points)
+static std::vector<vf::OSample> chain_reps(GeoEnv& env, double eps_amb, double scale, int lattice)
+{
+    vf::OSampleOptions o;
+    o.lattice = lattice;
+    o.near_faces = false;
+    return vf::oracle_samples(*env.oracle, env.lo, env.hi, eps_amb, scale, o);
+}
+
 static void part_rays(vf::Run& R)
 {
-    auto zoo = vf::zoo_entries(true);
+    auto zoo = vf::zoo_entries(true, true);
     int const n = R.thorough() ? 7 : 4;
     auto dirs = lattice_dirs26();
     auto irr = irrational_dirs(R.thorough() ? 12 : 6);
     dirs.insert(dirs.end(), irr.begin(), irr.end());
+    // directions used from the oracle-placed chain representatives: the irrational ones, and in
+    // thorough every second lattice direction as well
+    std::vector<size_t> rep_dirs;
+    for (size_t di = 0; di < dirs.size(); ++di)
+        if (di >= 26 || (R.thorough() && di % 2 == 0))
+            rep_dirs.push_back(di);
+    int const minit = R.thorough() ? 25 : 15;  // initialise-only lattice (blocks of minit^2)
     uint64_t outer = 0;
     for (size_t gi = 0; gi < zoo.size(); ++gi)
     {
-        // shard over (geometry, point); build the geometry lazily
+        if (R.expired())
+            return;
+        // every shard builds every geometry: the oracle-placed starts are enumerated from it
         std::unique_ptr<GeoEnv> env;
-        for (int ip = 0; ip < n * n * n; ++ip, ++outer)
+        try
+        {
+            env = vf::zoo_make(zoo[gi]);
+        }
+        catch (std::exception const& e)
+        {
+            R.tag("geometry-load-failed:" + zoo[gi].name);
+            R.note("load-failed:" + zoo[gi].name, e.what());
+            continue;
+        }
+        if (!env->oracle->supported())
+        {
+            R.tag("geometry-unsupported-by-oracle:" + zoo[gi].name);
+            continue;
+        }
+        if (env->oracle->has_duplicate_surfaces())
+        {
+            R.tag("geometry-degenerate-duplicate-surfaces:" + zoo[gi].name);
+            continue;
+        }
+        R.tag("geometry:" + zoo[gi].name);
+        double scale = env->scale();
+        double tol = std::max(env->oracle->tol_abs(), env->oracle->tol_rel() * scale);
+        Ctx c{R, *env, scale, 10 * tol, 100 * tol, tol};
+        auto reps = chain_reps(*env, c.eps_amb, scale, R.thorough() ? 25 : 17);
+        int const nlat = n * n * n;
+        int const total = nlat + int(reps.size()) + minit;
+        for (int ip = 0; ip < total; ++ip, ++outer)
         {
             if (!R.mine(outer))
                 continue;
             if (R.expired())
                 return;
-            if (!env)
+            if (ip >= nlat + int(reps.size()))
             {
-                try
-                {
-                    env = vf::zoo_make(zoo[gi]);
-                }
-                catch (std::exception const& e)
-                {
-                    R.tag("geometry-load-failed:" + zoo[gi].name);
-                    R.note("load-failed:" + zoo[gi].name, e.what());
-                    break;
-                }
-                if (!env->oracle->supported())
-                {
-                    R.tag("geometry-unsupported-by-oracle:" + zoo[gi].name);
-                    break;
-                }
-                if (env->oracle->has_duplicate_surfaces())
-                {
-                    R.tag("geometry-degenerate-duplicate-surfaces:" + zoo[gi].name);
-                    break;
-                }
-                R.tag("geometry:" + zoo[gi].name);
+                // initialise-only block: x-slab `bx` of a minit^3 lattice; initialise and compare
+                // volume chain + per-level positions with the oracle (no tracing)
+                int bx = ip - nlat - int(reps.size());
+                std::string cid = fmt("init:%s:slab=%d", zoo[gi].name.c_str(), bx);
+                if (!R.want(cid))
+                    continue;
+                R.begin_case(cid, 60);
+                for (int iy = 0; iy < minit; ++iy)
+                    for (int iz = 0; iz < minit; ++iz)
+                    {
+                        D3 p = {env->lo[0] + (bx + 0.5 + 0.0091) / minit * (env->hi[0] - env->lo[0]),
+                                env->lo[1] + (iy + 0.5 - 0.0183) / minit * (env->hi[1] - env->lo[1]),
+                                env->lo[2] + (iz + 0.5 + 0.0237) / minit * (env->hi[2] - env->lo[2])};
+                        OLocation l0 = c.locate(p);
+                        if (l0.status != OLocation::ok)
+                            continue;
+                        auto v = env->view(0);
+                        D3 d0 = dirs[(iy * minit + iz) % dirs.size()];
+                        v = GeoTrackInitializer{Real3{p[0], p[1], p[2]}, Real3{d0[0], d0[1], d0[2]}};
+                        R.count("transitions");
+                        R.count("op_init_only");
+                        if (v.failed())
+                        {
+                            R.violation("nav:init-failed", cid,
+                                        fmt("geometry %s: initialisation failed at %s which the "
+                                            "oracle locates unambiguously in %s",
+                                            c.env.name.c_str(), d3s(p).c_str(), chain_of(l0).c_str()));
+                            break;
+                        }
+                        if (!check_located(c, v, cid, "after initialisation (init-only lattice)"))
+                            break;
+                    }
+                R.count("evaluations");
+                R.end_case();
+                continue;
             }
-            double scale = env->scale();
-            double tol = std::max(env->oracle->tol_abs(), env->oracle->tol_rel() * scale);
-            Ctx c{R, *env, scale, 10 * tol, 100 * tol, tol};
-            int ix = ip / (n * n), iy = (ip / n) % n, iz = ip % n;
-            // lattice with small irrational offsets (avoid symmetric coincidences)
-            D3 p = {env->lo[0] + (ix + 0.5 + 0.0137) / n * (env->hi[0] - env->lo[0]),
-                    env->lo[1] + (iy + 0.5 - 0.0271) / n * (env->hi[1] - env->lo[1]),
-                    env->lo[2] + (iz + 0.5 + 0.0319) / n * (env->hi[2] - env->lo[2])};
+            D3 p;
+            bool is_rep = ip >= nlat;
+            if (!is_rep)
+            {
+                int ix = ip / (n * n), iy = (ip / n) % n, iz = ip % n;
+                // lattice with small irrational offsets (avoid symmetric coincidences)
+                p = {env->lo[0] + (ix + 0.5 + 0.0137) / n * (env->hi[0] - env->lo[0]),
+                     env->lo[1] + (iy + 0.5 - 0.0271) / n * (env->hi[1] - env->lo[1]),
+                     env->lo[2] + (iz + 0.5 + 0.0319) / n * (env->hi[2] - env->lo[2])};
+            }
+            else
+            {
+                p = reps[ip - nlat].p;
+                R.tag(fmt("ray-start:chain-representative:depth=%zu",
+                          size_t(std::count(reps[ip - nlat].chain.begin(),
+                                            reps[ip - nlat].chain.end(), '/'))));
+            }
             OLocation l0 = c.locate(p);
             if (l0.status != OLocation::ok || l0.outside)
             {
                 R.count(l0.status == OLocation::ok ? "starts_outside_world" : "starts_ambiguous");
                 continue;
             }
-            for (size_t di = 0; di < dirs.size(); ++di)
+            for (size_t k = 0; k < (is_rep ? rep_dirs.size() : dirs.size()); ++k)
             {
-                std::string cid = fmt("ray:%s:p=%d:d=%zu", zoo[gi].name.c_str(), ip, di);
+                size_t di = is_rep ? rep_dirs[k] : k;
+                std::string cid = is_rep ? fmt("ray:%s:c=%d:d=%zu", zoo[gi].name.c_str(), ip - nlat, di)
+                                         : fmt("ray:%s:p=%d:d=%zu", zoo[gi].name.c_str(), ip, di);
                 if (!R.want(cid))
                     continue;
                 R.begin_case(cid, 20);
@@ -507,6 +783,8 @@ static void part_rays(vf::Run& R)
     R.sample("ray:g3.1:p=21:d=5 = start lattice point 21 of geometry g3.1 (rotated daughter), "
              "direction #5, traced to the world exit with oracle checks on every segment");
     R.sample("ray:rect-array:p=10:d=30 (irrational direction through the bundled rect array)");
+    R.sample("ray:g4:c=7:d=27 = ray from the oracle-placed point inside the box of the twice "
+             "rotated leaf universe of g4 (three levels)");
 }
 
 //---------------------------------------------------------------------------//
@@ -630,6 +908,56 @@ struct OpsSearch
     bool stop{false};
     std::unordered_set<uint64_t> seen;
     std::vector<std::string> ops;
+    // re-initialisation check: the root's initialiser and the state it produced
+    D3 root_p{}, root_d{};
+    Snap root_snap{};
+
+    //! Re-initialise the (used) track slot from whatever state the history left and require the
+    //! LIVE fields to be those of the root state: slots are reused for secondaries / the next
+    //! primary, so anything the initialiser does not reset leaks into the next track.  (Dead
+    //! fields - surf/sense without a surface level, next_sense/next_level without a next surface -
+    //! are not compared.)  The resulting state IS the root state, whose futures have been explored
+    //! with a larger depth budget: no descent from here.
+    bool check_reinit(std::string const& id)
+    {
+        auto v = c.env.view(0);
+        v = GeoTrackInitializer{Real3{root_p[0], root_p[1], root_p[2]},
+                                Real3{root_d[0], root_d[1], root_d[2]}};
+        c.R.count("transitions");
+        c.R.count("op_reinit");
+        Snap a = take_snap(c.env);
+        Snap const& b = root_snap;
+        char const* diff = nullptr;
+        if (v.failed())
+            diff = "failed()";
+        else if (a.level != b.level)
+            diff = "level";
+        else if (a.surface_level != b.surface_level)
+            diff = "surface_level";
+        else if (a.boundary != b.boundary)
+            diff = "boundary (exiting / re-entrant flag)";
+        else if (!(a.next_step == b.next_step))
+            diff = "next_step";
+        else if (a.next_surf != b.next_surf)
+            diff = "next_surf";
+        else
+        {
+            int nl = int(a.level.unchecked_get()) + 1;
+            for (int l = 0; l < nl && !diff; ++l)
+                if (memcmp(&a.pos[l], &b.pos[l], sizeof(Real3)) || memcmp(&a.dir[l], &b.dir[l], sizeof(Real3))
+                    || a.vol[l] != b.vol[l] || a.universe[l] != b.universe[l])
+                    diff = "per-level position / direction / volume / universe";
+        }
+        if (diff)
+        {
+            c.R.violation("nav:reinit-leaves-stale-state", id + ",reinit",
+                          fmt("geometry %s: re-initialising the used track slot at %s dir %s does not "
+                              "reproduce the state of the first initialisation: field %s differs",
+                              c.env.name.c_str(), d3s(root_p).c_str(), d3s(root_d).c_str(), diff));
+            return false;
+        }
+        return true;
+    }
 
     std::string cid() const
     {
@@ -713,6 +1041,7 @@ struct OpsSearch
         else if (op.rfind("move:", 0) == 0)
         {
             double f = atof(op.c_str() + 5);
+            D3 want = axpy3(r3(v.pos()), f * n.next_d, r3(v.dir()));
             v.move_internal(f * n.next_d);
             R.count("op_move_internal");
             if (v.is_on_boundary())
@@ -720,6 +1049,10 @@ struct OpsSearch
                 R.violation("nav:on-boundary-after-move-internal", id, c.env.name);
                 return false;
             }
+            if (!check_moved_to(c, v, want, id, "after move_internal(distance)"))
+                return false;
+            if (position_on_a_surface(c, v))
+                return false;
             if (!check_located(c, v, id, "after move_internal(distance)"))
                 return false;
             r.phase = ph_next;
@@ -733,12 +1066,24 @@ struct OpsSearch
             D3 q = axpy3(r3(v.pos()), f * n.next_d, r3(v.dir()));
             v.move_internal(Real3{q[0], q[1], q[2]});
             R.count("op_move_internal_pos");
+            if (v.is_on_boundary())
+            {
+                R.violation("nav:on-boundary-after-move-internal", id, c.env.name);
+                return false;
+            }
+            if (!check_moved_to(c, v, q, id, "after move_internal(position)"))
+                return false;
+            if (position_on_a_surface(c, v))
+                return false;
             if (!check_located(c, v, id, "after move_internal(position)"))
                 return false;
             r.phase = ph_free;
         }
         else if (op == "tobound")
         {
+            // the harness' own book-keeping of the remaining step (n.next_d: the answer of the
+            // last find_next_step minus the internal moves since) says where the boundary is
+            D3 want = axpy3(r3(v.pos()), n.next_d, r3(v.dir()));
             v.move_to_boundary();
             R.count("op_to_boundary");
             if (!v.is_on_boundary())
@@ -746,6 +1091,9 @@ struct OpsSearch
                 R.violation("nav:not-on-boundary-after-move", id, c.env.name);
                 return false;
             }
+            if (!check_moved_to(c, v, want, id, "after move_to_boundary")
+                || !check_on_some_surface(c, v, id, "after move_to_boundary"))
+                return false;
             r.phase = ph_pending;
         }
         else if (op == "cross")
@@ -765,9 +1113,29 @@ struct OpsSearch
         }
         else if (op.rfind("setdir:", 0) == 0)
         {
-            int k = atoi(op.c_str() + 7);
-            D3 nd = k < 0 ? D3{-v.dir()[0], -v.dir()[1], -v.dir()[2]} : setdirs[k];
+            D3 nd;
             bool on_b = v.is_on_boundary();
+            if (op[7] == 'n')
+            {
+                // near-tangent direction relative to the TRUE normal (from the oracle) of the
+                // surface the track sits on: letter i = 2 x tangent + side, + 8 x angle
+                int i = atoi(op.c_str() + 8);
+                D3 nrm;
+                int slev = -1;
+                if (!on_b || !oracle_normal(c, r3(v.pos()), r3(v.dir()), &nrm, &slev))
+                {
+                    R.count("skipped_no_oracle_normal");
+                    return false;
+                }
+                double deg = (i / 8 == 0) ? 3.0 : 12.0;
+                nd = near_tangent_dir(nrm, (i % 8) / 2, (i % 2) ? -deg : deg);
+                R.tag(fmt("ops:setdir-near-tangent:surface-level=%d", slev));
+            }
+            else
+            {
+                int k = atoi(op.c_str() + 7);
+                nd = k < 0 ? D3{-v.dir()[0], -v.dir()[1], -v.dir()[2]} : setdirs[k];
+            }
             v.set_dir(Real3{nd[0], nd[1], nd[2]});
             R.count("op_set_dir");
             R.tag(on_b ? "ops:setdir-on-boundary" : "ops:setdir-interior");
@@ -808,6 +1176,13 @@ struct OpsSearch
             size_t stride = on_b ? 1 : (setdirs.size() / 2);
             for (size_t k = on_b ? 0 : 1; k < setdirs.size(); k += stride)
                 o.push_back("setdir:" + std::to_string(k));
+            // on a surface of a nested level (where set_dir has to rotate the surface normal up
+            // through the daughter transforms): directions 3 (thorough: and 12) degrees off the
+            // true tangent plane, both sides, four tangents - a wrong normal that deviates by
+            // more than ~3.3 degrees misjudges one of them
+            if (on_b && n.snap.surface_level && n.snap.surface_level.unchecked_get() >= 1)
+                for (int i = 0; i < (thorough ? 16 : 8); ++i)
+                    o.push_back("setdir:n" + std::to_string(i));
         };
         switch (n.phase)
         {
@@ -888,7 +1263,12 @@ struct OpsSearch
                     c.R.state(vf::hash_mix(hash_snap(child.snap, child.phase),
                                            vf::hash_str(c.env.name)));
                     if (fresh || c.R.replay())
+                    {
+                        // (state is the child's right now; dfs restores it before every op)
+                        if (!c.R.replay() || c.R.replay_case() == cid() + ",reinit")
+                            check_reinit(cid());
                         dfs(child, depth + 1, sd);
+                    }
                     else
                         c.R.count("shared_states");
                 }
@@ -906,7 +1286,7 @@ static void part_ops(vf::Run& R)
     std::vector<std::string> names = {"g3.0", "g3.1", "g3.2", "g3.3", "g3.4", "g4", "g5", "g1",
                                       "universes", "rect-array", "nested-rect-arrays",
                                       "inputbuilder-hierarchy", "inputbuilder-universes"};
-    auto zoo = vf::zoo_entries(true);
+    auto zoo = vf::zoo_entries(true, true);
     // Direction alphabet for set_dir: near-axis and near-diagonal directions, tilted by a few
     // 1e-2 so that none is EXACTLY tangent to an axis-aligned (or 30/90-degree rotated) surface
     // the track may be sitting on: motion exactly within a surface has no defined "next volume"
@@ -932,31 +1312,47 @@ static void part_ops(vf::Run& R)
     start_dirs.push_back(unit3({1, 0.0119, -0.0157}));
     start_dirs.push_back(unit3({0.5, 0.8660254037844386, 0}));
     int const nstart = R.thorough() ? 3 : 2;
-    uint64_t outer = 0;
-    for (auto const& nm : names)
+    if (R.thorough())
+        names.push_back("hex-array");
+
+    // All roots of all geometries, visited ROUND-ROBIN over the geometries so that a deadline
+    // cuts every geometry's tail instead of dropping the geometries at the end of the list.
+    //  (a) start lattice nstart^3 on the inner 60% of the probe box x all start directions;
+    //  (b) one oracle-placed point inside every distinct volume chain (every volume of every nested
+    //      universe instance: a surface of level 1 / 2 is then two operations away) x 1 / 2
+    //      start directions; quick keeps a spread of at most 10 chains per geometry.
+    struct Root
     {
+        size_t g;
+        D3 p, d;
+        std::string id;
+        bool rep;
+    };
+    std::vector<std::unique_ptr<GeoEnv>> envs;
+    std::vector<Snap> pristine;  // the never-used slot, restored before a root is initialised
+    std::vector<std::vector<Root>> per_geo;
+    for (size_t g = 0; g < names.size(); ++g)
+    {
+        auto const& nm = names[g];
         auto it = std::find_if(zoo.begin(), zoo.end(), [&](auto const& e) { return e.name == nm; });
         if (it == zoo.end())
             R.harness_error("unknown geometry " + nm);
-        std::unique_ptr<GeoEnv> env;
-        for (int ip = 0; ip < nstart * nstart * nstart; ++ip)
-            for (size_t di = 0; di < start_dirs.size(); ++di, ++outer)
+        envs.push_back(vf::zoo_make(*it));
+        GeoEnv* env = envs.back().get();
+        if (!env->oracle->supported())
+            R.harness_error("oracle does not support " + nm);
+        pristine.push_back(take_snap(*env));
+        double scale = env->scale();
+        double tol = std::max(env->oracle->tol_abs(), env->oracle->tol_rel() * scale);
+        std::vector<Root> roots, lattice_roots;
+        int n = nstart;
+        for (int ip = 0; ip < n * n * n; ++ip)
+            for (size_t di = 0; di < start_dirs.size(); ++di)
             {
-                if (!R.mine(outer))
+                // thorough: 27 points x 2 directions (the oracle-placed roots below carry the rest
+                // of the budget); quick: 8 points x 3 directions
+                if (R.thorough() && di != 0 && di != 3)
                     continue;
-                if (R.expired())
-                    return;
-                if (!env)
-                {
-                    env = vf::zoo_make(*it);
-                    if (!env->oracle->supported())
-                        R.harness_error("oracle does not support " + nm);
-                    R.tag("geometry:" + nm);
-                }
-                double scale = env->scale();
-                double tol = std::max(env->oracle->tol_abs(), env->oracle->tol_rel() * scale);
-                Ctx c{R, *env, scale, 10 * tol, 100 * tol, tol};
-                int n = nstart;
                 int ix = ip / (n * n), iy = (ip / n) % n, iz = ip % n;
                 // start lattice concentrated on the inner 60% of the probe box (where the
                 // daughters are)
@@ -966,43 +1362,97 @@ static void part_ops(vf::Run& R)
                     return mid + half * ((i + 0.5 + off) / n * 2 - 1);
                 };
                 D3 p = {coord(0, ix, 0.0137), coord(1, iy, -0.0271), coord(2, iz, 0.0319)};
-                OLocation l0 = c.locate(p);
-                if (l0.status != OLocation::ok || l0.outside)
-                {
-                    R.count("starts_skipped");
-                    continue;
-                }
-                std::string root = fmt("ops:%s:p=%d:d=%zu", nm.c_str(), ip, di);
-                if (R.replay() && R.replay_case().compare(0, root.size() + 1, root + "|") != 0)
-                    continue;
-                R.begin_case(root, 600);
-                auto v = env->view(0);
-                D3 d0 = start_dirs[di];
-                v = GeoTrackInitializer{Real3{p[0], p[1], p[2]}, Real3{d0[0], d0[1], d0[2]}};
-                R.count("transitions");
-                if (v.failed())
-                {
-                    R.violation("nav:init-failed", root + "|", env->name + " " + d3s(p));
-                    R.end_case();
-                    continue;
-                }
-                check_located(c, v, root + "|", "after initialisation");
-                OpsSearch S{c, root, setdirs, R.thorough() ? 7 : 6, 2,
-                            R.thorough() ? 3000000ull : 400000ull, R.thorough()};
-                Node n0{take_snap(*env), ph_free, 0, false, false, false};
-                S.dfs(n0, 0, 0);
-                if (S.capped)
-                    R.cap_hit("ops: node cap per root reached");
-                R.count("evaluations");
-                R.count("roots");
-                R.count("nodes", S.nodes);
-                R.nontrivial(vf::hash_str(root));
-                R.end_case();
+                lattice_roots.push_back({g, p, start_dirs[di],
+                                         fmt("ops:%s:p=%d:d=%zu", nm.c_str(), ip, di), false});
             }
+        auto reps = chain_reps(*env, 10 * tol, scale, R.thorough() ? 25 : 17);
+        size_t const maxrep = R.thorough() ? reps.size() : std::min<size_t>(reps.size(), 10);
+        for (size_t k = 0; k < maxrep; ++k)
+        {
+            // spread (deepest chains are found last: keep both ends)
+            size_t ci = maxrep == reps.size() ? k : (k * (reps.size() - 1)) / (maxrep - 1);
+            for (size_t di : {size_t(0), start_dirs.size() - 1})
+            {
+                if (!R.thorough() && di != 0)
+                    continue;
+                roots.push_back({g, reps[ci].p, start_dirs[di],
+                                 fmt("ops:%s:c=%zu:d=%zu", nm.c_str(), ci, di), true});
+            }
+        }
+        // oracle-placed roots first (a deadline then cuts lattice roots)
+        roots.insert(roots.end(), lattice_roots.begin(), lattice_roots.end());
+        per_geo.push_back(std::move(roots));
+        R.tag("geometry:" + nm);
+    }
+    std::vector<Root const*> order;
+    for (size_t k = 0;; ++k)
+    {
+        bool any = false;
+        for (auto const& roots : per_geo)
+            if (k < roots.size())
+            {
+                order.push_back(&roots[k]);
+                any = true;
+            }
+        if (!any)
+            break;
+    }
+    for (uint64_t outer = 0; outer < order.size(); ++outer)
+    {
+        if (!R.mine(outer))
+            continue;
+        if (R.expired())
+            return;
+        Root const& rt = *order[outer];
+        GeoEnv* env = envs[rt.g].get();
+        double scale = env->scale();
+        double tol = std::max(env->oracle->tol_abs(), env->oracle->tol_rel() * scale);
+        Ctx c{R, *env, scale, 10 * tol, 100 * tol, tol};
+        D3 p = rt.p;
+        OLocation l0 = c.locate(p);
+        if (l0.status != OLocation::ok || l0.outside)
+        {
+            R.count("starts_skipped");
+            continue;
+        }
+        std::string const& root = rt.id;
+        if (R.replay() && R.replay_case().compare(0, root.size() + 1, root + "|") != 0)
+            continue;
+        R.begin_case(root, 600);
+        if (rt.rep)
+            R.tag(fmt("ops-root:chain-representative:depth=%zu", l0.levels.size()));
+        put_snap(*env, pristine[rt.g]);
+        auto v = env->view(0);
+        D3 d0 = rt.d;
+        v = GeoTrackInitializer{Real3{p[0], p[1], p[2]}, Real3{d0[0], d0[1], d0[2]}};
+        R.count("transitions");
+        if (v.failed())
+        {
+            R.violation("nav:init-failed", root + "|", env->name + " " + d3s(p));
+            R.end_case();
+            continue;
+        }
+        check_located(c, v, root + "|", "after initialisation");
+        OpsSearch S{c, root, setdirs, R.thorough() ? 7 : 6, 2,
+                    R.thorough() ? 3000000ull : 400000ull, R.thorough()};
+        Node n0{take_snap(*env), ph_free, 0, false, false, false};
+        S.root_p = p;
+        S.root_d = d0;
+        S.root_snap = n0.snap;
+        S.dfs(n0, 0, 0);
+        if (S.capped)
+            R.cap_hit("ops: node cap per root reached");
+        R.count("evaluations");
+        R.count("roots");
+        R.count("nodes", S.nodes);
+        R.nontrivial(vf::hash_str(root));
+        R.end_case();
     }
     R.sample("ops:g3.0:p=13:d=4|find,tobound,cross,setdir:3,find,move:0.5  (cross into the "
              "rotated daughter, change direction on the boundary, search, move)");
     R.sample("ops:g4:p=13:d=0|find,mpos:0.5,findmax:0.3,move:1,find,tobound,setdir:-1,cross");
+    R.sample("ops:g4:c=7:d=0|find,tobound,setdir:4,cross,find  (root placed by the oracle inside the "
+             "box of the twice rotated leaf universe: direction change on a level-2 surface)");
 }
 
 //---------------------------------------------------------------------------//
